@@ -83,13 +83,15 @@ theorem accept_whatever_factor [CharZero α] (q q' : Quantity α) (hq : q.unit.W
     reactionCheck (.qty q) order = reactionCheck (.qty q') order := by
   rw [reactionCheck_qty q hq, reactionCheck_qty q' hq', hd]
 
-/-- a parameter that is not a `Quantity` (number, string, `Expr`, bare unit object) is never checked -/
-theorem plain_parameter_accepted (x : α) (order : ℤ) : reactionCheck (.num x) order = .ok () := rfl
-
-/-- **Equilibrium constants: the check as it is.** Accepted iff the exponent vector is that of
-    `concentration^(Σprod − Σreac)` AND the scale factor of the unit equals that of `molar^(Σprod − Σreac)`
-    (the code compares simplified units, not dimensionalities); refusal is a ValueError. -/
-theorem equilibrium_accept_iff [CharZero α] (q : Quantity α) (nprod nreac : ℤ) :
+/-- **QUIRK, exact model only — NOT claimed of the real code in the ⇐ direction.** In exact arithmetic (the model) the
+    equilibrium check accepts iff the exponent vector is that of `concentration^(Σprod − Σreac)` AND the scale factor of the
+    unit equals that of `molar^(Σprod − Σreac)` (the code compares simplified UNITS, not dimensionalities), refusal being a
+    ValueError.  The real code evaluates the factor comparison in float64: a unit whose exact factor equals `1000^Δ` but whose
+    float product differs in the last bit (`3*mol/dm**3` for `A = B + C`, `3*dm**3/mol` for `2 A = B`) is REFUSED by the real
+    code although this model accepts it.  Only the ⇒ direction (`equilibrium_accept_implies_dimension`) is what the property
+    needs and what the correspondence enforces strictly (real accepts ⇒ model accepts); the cases in which the two differ
+    are counted in the evidence bucket `equilibrium float-factor quirk`. -/
+theorem equilibrium_exact_model_unit_check_quirk [CharZero α] (q : Quantity α) (nprod nreac : ℤ) :
     equilibriumCheck (.qty q) nprod nreac =
       if q.unit.dims = Dims.smul (nprod - nreac) concDims ∧ q.unit.factor = 1000 ^ (nprod - nreac)
       then .ok () else .error .valueError :=
@@ -112,6 +114,20 @@ theorem equilibrium_refuses_scaled_unit_witness :
     ([3, 0, 0, 0, 0, 0, -1] : Dims) = Dims.smul (1 - 2) concDims := by
   decide +kernel
 
+/-- **Reactions obtained from `Equilibrium.as_reactions` are checked like any other.** Whatever pair `(kf, kb)` the call
+    returns (one rate given, with or without `units`), both constants passed the constructor's unit check for THEIR OWN
+    reaction: each is either not a Quantity or has dimension `concentration^(1−order)/time` with the forward order `Σreac`
+    resp. the backward order `Σprod`; otherwise the call raises.  The two are related by `K · c0^(Σprod−Σreac)`,
+    `c0 = 1 molar` (SI value 1000) or 1. -/
+theorem as_reactions_checked [CharZero α] (K : PyVal α) (kf kb : Option (PyVal α)) (nf nb : ℤ) (units : Bool)
+    (hK : K.WF) (hf : ∀ f, kf = some f → f.WF) (hb : ∀ b, kb = some b → b.WF) (f b : PyVal α)
+    (h : asReactions K kf kb nf nb units = .ok (f, b)) :
+    (∀ q, f = .qty q → q.unit.dims = rateConstDims nf) ∧ (∀ q, b = .qty q → q.unit.dims = rateConstDims nb) ∧
+    reactionCheck f nf = .ok () ∧ reactionCheck b nb = .ok () ∧
+    ∃ c0 : α, (units = true → c0 = 1000) ∧ (units = false → c0 = 1) ∧
+      ((kf = none ∧ f.si = b.si * K.si * c0 ^ (nb - nf)) ∨ (kb = none ∧ b.si = f.si / (K.si * c0 ^ (nb - nf)))) :=
+  asReactions_checked K kf kb nf nb units hK hf hb f b h
+
 /-! ## registry independence -/
 
 /-- **Registry independence (the unit-aware ODE system).**
@@ -119,8 +135,10 @@ theorem equilibrium_refuses_scaled_unit_witness :
     rate constant (dimension `concentration^(1−order)/time`, ANY unit factor and magnitude) and every concentration
     vector (any concentration units): what `get_odesys(rsys, unit_registry=reg)[0].f_cb` returns after the `to_arrays`
     conversion is the plain right-hand side computed from the SI values of constants and concentrations — the hand
-    computation in one fixed unit set — times `time_unit / conc_unit` of the registry. An error of the plain
-    computation (a reactant index outside the state vector) is the same error. -/
+    computation in one fixed unit set — times `time_unit / conc_unit` of the registry.  `plainRhs` is the shared kinetics
+    model of C03/C04 (`Kinetics.sysRates` + pyodesys' one-expression-per-substance requirement): its errors — a reactant
+    outside the state (KeyError), a spectator substance (ValueError at `get_odesys`) — are the same errors here; see
+    `unit_aware_system_exists` / `spectator_substance_refused` for when the result exists. -/
 theorem registry_independence (reg : Registry α) (hreg : RegistryWF reg) (ks : List (PyVal α)) (rxns : List Rxn)
     (y : List (PyVal α)) (ns : ℕ)
     (hk : List.Forall₂ (fun k r => k.WF ∧ k.dims = rateConstDims r.order) ks rxns)
@@ -129,6 +147,28 @@ theorem registry_independence (reg : Registry α) (hreg : RegistryWF reg) (ks : 
       (plainRhs (ks.map PyVal.si) rxns (y.map PyVal.si) ns).map
         (List.map (· * (regProd reg timeDims / regProd reg concDims))) :=
   odeRhs_spec reg hreg ks rxns y ns hk hy
+
+/-- **Success characterisation.** With one concentration per substance, every index a substance and every substance taking
+    part in some reaction (as reactant or product), the unit-aware right-hand side exists and has one entry per substance —
+    for every registry and every accepted choice of units. -/
+theorem unit_aware_system_exists (reg : Registry α) (hreg : RegistryWF reg) (ks : List (PyVal α)) (rxns : List Rxn)
+    (y : List (PyVal α)) (ns : ℕ)
+    (hk : List.Forall₂ (fun k r => k.WF ∧ k.dims = rateConstDims r.order) ks rxns)
+    (hy : ∀ c ∈ y, c.WF ∧ c.dims = concDims) (hlen : y.length = ns)
+    (hrange : ∀ s, Occurs rxns s → s < ns) (hcov : ∀ s, s < ns → Occurs rxns s) :
+    ∃ f, odeRhs reg ks rxns y ns = .ok f ∧ f.length = ns :=
+  odeRhs_ok reg hreg ks rxns y ns hk hy hlen hrange hcov
+
+/-- **Spectators are refused, as in the code.** A substance of the system that occurs in no reaction makes `get_odesys`
+    raise ValueError (pyodesys: "Callback returned unexpected number of expressions"), in every registry; the model does
+    not return a silent zero for it. -/
+theorem spectator_substance_refused (reg : Registry α) (hreg : RegistryWF reg) (ks : List (PyVal α)) (rxns : List Rxn)
+    (y : List (PyVal α)) (ns : ℕ)
+    (hk : List.Forall₂ (fun k r => k.WF ∧ k.dims = rateConstDims r.order) ks rxns)
+    (hy : ∀ c ∈ y, c.WF ∧ c.dims = concDims) (hlen : y.length = ns)
+    (hrange : ∀ s, Occurs rxns s → s < ns) (s : ℕ) (hs : s < ns) (hspec : ¬ Occurs rxns s) :
+    odeRhs reg ks rxns y ns = .error .valueError :=
+  odeRhs_spectator reg hreg ks rxns y ns hk hy hlen hrange s hs hspec
 
 /-- **… as a physical rate.** Multiplying each returned number by `conc_unit / time_unit` of the registry gives a
     quantity of dimension concentration/time whose SI value is the hand-computed rate of change — the same for every
@@ -294,10 +334,10 @@ example : RegistryWF exampleReg := by
 
 /-- `2 A -> B`, `k = 3 /M/h`, `[A] = 13 mol/m³`, `[B] = 0.2 M`: in (cm, min, µmol) units the system returns
     `d[A]/dt = −169/10000`, i.e. `−169/600000 mol m⁻³ s⁻¹ = −2·k·[A]²` in SI (k = 1/1200000, [A] = 13) -/
-example : odeRhs exampleReg [.qty ⟨3, ⟨1/3600000, [3, 0, -1, 0, 0, 0, -1]⟩⟩] [⟨[(0, 2)], [-2, 1]⟩]
+example : odeRhs exampleReg [.qty ⟨3, ⟨1/3600000, [3, 0, -1, 0, 0, 0, -1]⟩⟩] [⟨[(0, 2)], [(1, 1)]⟩]
     [.qty ⟨13, ⟨1, concDims⟩⟩, .qty ⟨1/5, ⟨1000, concDims⟩⟩] 2 = .ok [-169/10000, 169/20000] := by decide +kernel
 
-example : plainRhs [(1 : Rat)/1200000] [⟨[(0, 2)], [-2, 1]⟩] [13, 200] 2 = .ok [-169/600000, 169/1200000] := by
+example : plainRhs [(1 : Rat)/1200000] [⟨[(0, 2)], [(1, 1)]⟩] [13, 200] 2 = .ok [-169/600000, 169/1200000] := by
   decide +kernel
 
 example : ([3, 0, -1, 0, 0, 0, -1] : Dims) = rateConstDims 2 := by decide +kernel
@@ -306,4 +346,19 @@ example : reactionCheck (.qty ⟨3, ⟨1/3600000, [3, 0, -1, 0, 0, 0, -1]⟩⟩ 
 example : reactionCheck (.qty ⟨3, ⟨1/3600000, [3, 0, -1, 0, 0, 0, -1]⟩⟩ : PyVal Rat) 1 = .error .valueError := by
   decide +kernel
 
+/-- `A + B = C`, `K = 2000` (plain number, molar standard state), `kf = 3 /M/s`: `kb = kf / (K · c0^(1−2)) = 1.5e-3 /s`, accepted -/
+example : asReactions (.num 2000 : PyVal Rat) (some (.qty ⟨3, ⟨1/1000, [3, 0, -1, 0, 0, 0, -1]⟩⟩)) none 2 1 true =
+    .ok (.qty ⟨3, ⟨1/1000, [3, 0, -1, 0, 0, 0, -1]⟩⟩, .qty ⟨3 / (2000 * 1), ⟨1/1000 / (1 * (1/1000)), [0, 0, -1, 0, 0, 0, 0]⟩⟩) := by
+  decide +kernel
+
+/-- the same with a unit-carrying `K = 2000 /M`: the backward constant comes out as `M/s` and the call raises -/
+example : asReactions (.qty ⟨2000, ⟨1/1000, [3, 0, 0, 0, 0, 0, -1]⟩⟩ : PyVal Rat)
+    (some (.qty ⟨3, ⟨1/1000, [3, 0, -1, 0, 0, 0, -1]⟩⟩)) none 2 1 true = .error .valueError := by decide +kernel
+
+/-- a spectator: `A -> B` in a system `A B C` -/
+example : odeRhs exampleReg [.qty ⟨3, ⟨1/60, [0, 0, -1, 0, 0, 0, 0]⟩⟩] [⟨[(0, 1)], [(1, 1)]⟩]
+    [.qty ⟨2, ⟨1, concDims⟩⟩, .qty ⟨5, ⟨1/1000, concDims⟩⟩, .qty ⟨1, ⟨1000, concDims⟩⟩] 3 = .error .valueError := by
+  decide +kernel
+
 end ChemModel.C10
+
